@@ -3,12 +3,14 @@ use anyhow::{Result, bail};
 use serde_json::Value;
 
 pub mod c07;
+pub mod c18;
 pub mod canon;
 pub mod c31;
 pub mod c32;
 pub mod ll;
 pub mod llrun;
 pub mod lrrun;
+pub mod names;
 pub mod scan;
 pub mod tables;
 pub mod wf;
@@ -22,6 +24,8 @@ pub fn replay_fn(kind: &str) -> Result<fn(&Value) -> Outcome> {
         "llrun" => llrun::replay,
         "c07" => c07::replay,
         "c31" => c31::replay,
+        "c18" => c18::replay,
+        "names" => names::replay,
         "tables" => tables::replay,
         "canon" => canon::replay,
         "scan" => scan::replay,
